@@ -10,8 +10,8 @@ from mc.ref import tbl
 ID = "C18"
 LEVEL = "exploration"
 LEVEL_TEXT = ("Complete enumeration of tables = every subset of size 1-4 of the entry texts {a,b,ab,ba,aa,abc} x every assignment of 4 "
-              "code styles (1-byte, 2-byte, 2-byte sharing its first byte with a 1-byte code, duplicate code) x every string of length "
-              "<=4 (thorough <=5) over {a,b,c,z,[0x41],[0x7F]}, each pair through the real Table.to_bytes/to_text and compared with an "
+              "code styles (1-byte, 2-byte, 2-byte sharing its first byte with a 1-byte code, 2-byte starting with 00), plus duplicate-code tables and tables with a bare '[' entry, x every string of length "
+              "<=4 (thorough <=5) over {a,b,c,z,[0x41],[0x7F],[}, each pair through the real Table.to_bytes/to_text and compared with an "
               "independent longest-match tokenizer; a covering subset again through `.table` + `.text` programs in 7 scoping contexts "
               "with a label after the text. Five unit tests use one table and four strings.")
 LEVEL_NOTE = ("Trusted: mc/ref/tbl.py. Round trip is claimed only for unique, prefix-free code sets and escape-free strings (the statement "
@@ -23,7 +23,7 @@ RULE = ("case = one table (codec family: all strings) or one (table, scoping con
 ASSUMPTIONS = ["reference tokenizer mc/ref/tbl.py", "table files written as HEX=text lines"]
 
 TEXTS = ["a", "b", "ab", "ba", "aa", "abc"]
-ALPH = ["a", "b", "c", "z", "[0x41]", "[0x7F]"]
+ALPH = ["a", "b", "c", "z", "[0x41]", "[0x7F]", "["]
 UTBL = {"a": b"\x61", "b": b"\x62", "c": b"\x63"}
 ORG = 0x018000
 
@@ -35,7 +35,9 @@ def code_for(idx, style):
         return bytes([0x80 + idx, 0x01])
     if style == 2:
         return bytes([0x10 + (idx + 1) % 6, 0x02])
-    return bytes([0x10])
+    if style == 3:
+        return bytes([0x00, 0x40 + idx])  # multi-byte code whose first byte is 00
+    return bytes([0x10])  # style 4: duplicate of entry 0's one-byte code
 
 
 def all_tables():
@@ -44,6 +46,16 @@ def all_tables():
         for subset in itertools.combinations(range(len(TEXTS)), k):
             for styles in itertools.product(range(4), repeat=k):
                 out.append({TEXTS[i]: code_for(i, s) for i, s in zip(subset, styles)})
+    # duplicate codes (flagged non-unique: encoding is still defined, round trip is not claimed)
+    for subset in itertools.combinations(range(len(TEXTS)), 2):
+        out.append({TEXTS[subset[0]]: code_for(subset[0], 4), TEXTS[subset[1]]: code_for(subset[1], 4)})
+    # tables with a bare '[' entry: the [0xNN] escape still means a raw byte
+    for k in (0, 1, 2, 3):
+        for subset in itertools.combinations(range(len(TEXTS)), k):
+            for styles in itertools.product(range(4), repeat=k):
+                t = {TEXTS[i]: code_for(i, s) for i, s in zip(subset, styles)}
+                t["["] = bytes([0x5B])
+                out.append(t)
     return out
 
 
@@ -57,15 +69,16 @@ def tables():
     return _TABLES
 
 
-def strings(maxlen):
+def strings(maxlen, bracket=True):
+    alph = ALPH if bracket else ALPH[:-1]
     yield ""
     for n in range(1, maxlen + 1):
-        for tup in itertools.product(ALPH, repeat=n):
+        for tup in itertools.product(alph, repeat=n):
             yield "".join(tup)
 
 
 def bound(tier):
-    return (f"{len(tables())} tables x all strings of length <={5 if tier == 'thorough' else 4} over 6 symbols; "
+    return (f"{len(tables())} tables x all strings of length <={5 if tier == 'thorough' else 4} over 7 symbols; "
             "every 61st table x strings <=3 x 7 scoping contexts as programs")
 
 
@@ -105,7 +118,8 @@ def run_codec(ti, maxlen):
     viol = []
     evals = nt = rts = 0
     example = None
-    for s in strings(maxlen):
+    # the lone '[' symbol is part of the string alphabet for tables that have a '[' entry and for every 16th other table
+    for s in strings(maxlen, bracket=("[" in entries or ti % 16 == 0)):
         exp, matched, esc = tbl.encode(entries, s)
         evals += 1
         if ov or esc or "z" in s or "c" in s:
